@@ -6,6 +6,8 @@ import json
 import os
 import re
 from .. import core
+from . import _gen
+from . import _hashmap
 
 M60 = (1 << 60) - 1
 M64 = (1 << 64) - 1
@@ -492,6 +494,7 @@ def shrink(exe, drv, cfg, script, pred):
 def run(ctx):
     rng = ctx.rng
     quick = ctx.tier == "quick"
+    _gen.regen(ctx, ["Int60"])      # Gen/*.v regenerated from the source + Properties_Gen_*.v (tools/ctrans.py)
     pr = ctx.coq_properties("Properties/Properties_C03.v")
     exe = ctx.link("c03_syncvar", ["c03_syncvar.c"], exclude=["syncvar.c"])
     drv = ctx.model_driver("c03_driver")
@@ -579,6 +582,7 @@ def run(ctx):
 
     ctx.notes.append("history: incrF used to return / deliver the unreduced 64-bit sum once it reached 2^60 (found by this check, "
                      "fixed in /repo 70f90aa); regression: corpus/C03/05_incrF_wrap.txt, Syncvar/Examples.v incrF_wrap_regression")
+    _hashmap.run_tier(ctx, quick)      # qt_hash (src/hashmap.c): theorems + M1 tie, see _hashmap.py
     broken = bool(mismatches) or not pr["ok"]
     if not broken and not oracle_fail:
         return
@@ -626,6 +630,8 @@ def run(ctx):
 def replay(ctx, path):
     j = json.load(open(path))
     r = j.get("replay", {})
+    if str(j.get("signature", "")).startswith("hashmap") and r.get("script"):
+        return _hashmap.replay_script(ctx, r["script"])
     print(json.dumps({k: r.get(k) for k in ("config", "script_readable", "oracle")}, indent=1)[:3000])
     script = r.get("script")
     if not script:
